@@ -16,8 +16,9 @@ import (
 type input struct {
 	msg *dns.Msg // own bytes as parsed by the DNS library; nil if they do not parse
 
-	family string // valid, valid-large, probe, random, truncation, header-lie, header-consistent, structural
+	family string // valid, valid-large, probe, random, truncation, header-lie, header-consistent, structural, prod, ...
 	desc   string
+	tag    string // production-pipeline corpus: the special features of the query, used in violation keys
 	shape  string // normalised class of the case, for the distinct-case count
 
 	wire []byte
